@@ -6,6 +6,8 @@ import (
 	"errors"
 	"fmt"
 	"net"
+	"os"
+	"strconv"
 	"strings"
 	"time"
 
@@ -464,7 +466,7 @@ func (s *ExScenario) check(run *exRun, ex *vs.Exec) (string, string) {
 			return fail("X3-request-sid", fmt.Sprintf("REQUEST carries server id %v, offering server is %v", rq.ServerIdentifier(), srvIP[off.server]))
 		}
 		// completion: replies delivered after the REQUEST; replies of phase 1 that were still in flight may
-		// or may not be seen by the second exchange (two-valued)
+		// or may not be seen by the second exchange
 		complete := func(list []replyMeta) (string, int) {
 			for _, r := range list {
 				if r.valid && (r.typ == int(dhcpv4.MessageTypeAck) || r.typ == int(dhcpv4.MessageTypeNak)) && r.server == off.server {
@@ -478,7 +480,13 @@ func (s *ExScenario) check(run *exRun, ex *vs.Exec) (string, string) {
 		}
 		okOutcome := false
 		var want []string
-		for _, cand := range [][]replyMeta{p2, append(append([]replyMeta{}, p1[sel+1:]...), p2...)} {
+		// the socket is a FIFO: the phase-1 replies the second exchange gets to see are a suffix of the phase-1 list
+		// (those read after the REQUEST's transaction was registered), followed by the phase-2 replies
+		var cands [][]replyMeta
+		for k := len(p1); k > sel; k-- {
+			cands = append(cands, append(append([]replyMeta{}, p1[k:]...), p2...))
+		}
+		for _, cand := range cands {
 			wc, ws := complete(cand)
 			want = append(want, fmt.Sprintf("%s/%d", wc, ws))
 			if wc != ec {
@@ -710,16 +718,32 @@ func c13Scenarios(tier string) []Scenario {
 	add := func(s *ExScenario) {
 		s.Name = fmt.Sprintf("c13-%06d", len(out))
 		if s.Bound == 0 {
-			s.Bound = -1 // default schedule: arrival order is in the script
+			// arrival order is in the script; the order in which the caller and the receive loop get to run is not:
+			// every schedule with at most one preemption (scripts of more than 8 replies: default schedule only)
+			n := len(s.P1) + len(s.P2)
+			switch {
+			case n > 8:
+				s.Bound = -1
+			case thorough && n <= 3:
+				s.Bound = 3
+			case thorough && n <= 5:
+				s.Bound = 2
+			case !thorough && n <= 3:
+				s.Bound = 2
+			default:
+				s.Bound = 1
+			}
+			if v := os.Getenv("VERIF_C13_BOUND"); v != "" && n <= 8 {
+				s.Bound, _ = strconv.Atoi(v)
+			}
 		}
 		out = append(out, &exScen{s: s, fam: s.Op})
 	}
 	a1 := []RK{ROffer1, ROffer2, ROfferNoSID, RAck1, RNak1, RWrongXid, RWrongHW, RGarbage}
 	a2 := []RK{RAck1, RAck2, RNak1, RNak2, ROffer1, RWrongXid, RAckNoSID, RGarbage, RWrongHW}
 	n1, n2 := 2, 3
-	stride := 20
 	if thorough {
-		n1, stride = 3, 7
+		n1 = 3
 	}
 	i := 0
 	if thorough {
@@ -736,12 +760,6 @@ func c13Scenarios(tier string) []Scenario {
 		for _, p2 := range rkSeqs(a2, n2) {
 			s := &ExScenario{Op: "request", P1: p1, P2: p2}
 			// preemption-bounded exploration on a deterministic stride
-			if i%stride == 0 && len(p1)+len(p2) <= 3 {
-				s.Bound = 1
-				if thorough {
-					s.Bound = 2
-				}
-			}
 			i++
 			add(s)
 		}
@@ -781,9 +799,6 @@ func c13Scenarios(tier string) []Scenario {
 	for _, p1 := range rkSeqs(a6, n6) {
 		for _, p2 := range rkSeqs(a6[:8], 2) {
 			s := &ExScenario{Op: "rapid", P1: p1, P2: p2}
-			if j%25 == 0 && len(p1)+len(p2) <= 3 {
-				s.Bound = 1
-			}
 			j++
 			add(s)
 		}
